@@ -104,6 +104,8 @@ class CFG:
         # an enclosing element
         x = self.fn.parent.get(node)
         while x is not None:
+            if self.fn.nodes[x].get("inlined"):
+                break       # the value of an inlined call is not where its body executes
             if x in self.elem_pt:
                 return self.elem_pt[x]
             x = self.fn.parent.get(x)
